@@ -60,6 +60,9 @@ class Machine:
         self.op_index = -1
         self.sigs: List[str] = []
         self.kept_results: List[Any] = []
+        # addresses of dead objects, by kind: new ones are made to lie there (world.new_at)
+        self.graves: Dict[str, Any] = {"fn": set(), "env": set(), "list": set(), "dict": set()}
+        self.pinned_docs: set = set()  # documents other documents share objects with
         self._tl = threading.local()
         world.REENTRY_HOOK = self._reentry
         del world.FIRED_BY[:]
@@ -165,6 +168,7 @@ class Machine:
             if not conts:
                 return "skip"
             loc, obj = conts[spec["pick"] % len(conts)]
+            self.pinned_docs.update((spec["member_of"], op["id"]))
             gspec = {"json": copy.deepcopy(D.get(src["spec"]["json"], loc))}
             self.stats["docs_that_are_members_of_another"] += 1
             self.docs[op["id"]] = {"spec": gspec, "obj": obj, "snap": D.snapshot(obj)}
@@ -191,6 +195,7 @@ class Machine:
                     shared += 1
                 except (KeyError, IndexError, TypeError):
                     continue
+            self.pinned_docs.update((spec["graft_of"], op["id"]))
             if shared:
                 self.stats["docs_grafted_on_shared_subobjects"] += 1
             self.docs[op["id"]] = {"spec": {"json": gjson}, "obj": obj, "snap": D.snapshot(obj)}
@@ -206,11 +211,46 @@ class Machine:
                 obj = {"a": src["obj"], "b": [src["obj"]]}
                 gjson = {"a": src["spec"]["json"], "b": [src["spec"]["json"]]}
             gspec = {"json": gjson}
+            self.pinned_docs.update((spec["wrap"], op["id"]))
             self.stats["docs_sharing_subobjects"] += 1
         else:
             obj = D.build(spec)
             gspec = spec
+            kind = "list" if isinstance(obj, list) else "dict" if isinstance(obj, dict) else None
+            if kind and self.graves[kind]:
+                # the new document's root lies where the root or a container of a dead document was
+                root, reused = world.new_at(list if kind == "list" else dict, self.graves[kind])
+                if reused:
+                    if kind == "list":
+                        root.extend(obj)
+                    else:
+                        root.update(obj)
+                    obj = root
+                    self.stats["probe_document_allocated_where_a_dead_one_was"] += 1
+                del root
         self.docs[op["id"]] = {"spec": gspec, "obj": obj, "snap": D.snapshot(obj)}
+        return "ok"
+
+    def op_forget_doc(self, op: Dict[str, Any]) -> Any:
+        """The caller lets go of a document and of what was obtained from it (live iterators,
+        results); a collection follows."""
+        did = op["doc"]
+        d = self.docs.get(did)
+        if d is None or did in self.pinned_docs or "json" not in d["spec"]:
+            return "skip"
+        c = None
+        for _loc, c in _walk_containers(d["obj"]):
+            self.graves["list" if isinstance(c, list) else "dict"].add(id(c))
+        for rec in self.iters.values():
+            if rec["doc"] == did:
+                rec["it"] = None
+                if rec["state"] == "live":
+                    rec["state"] = "dropped"
+        self.seen_calls = [c for c in self.seen_calls if c["doc"] != did]
+        self.kept_results = [k for k in self.kept_results if k[3] != did]
+        del self.docs[did], d, c
+        gc.collect()
+        self.stats["docs_forgotten_and_collected"] += 1
         return "ok"
 
     def op_mutate_doc(self, op: Dict[str, Any]) -> Any:
@@ -251,12 +291,41 @@ class Machine:
     def op_new_env(self, op: Dict[str, Any]) -> Any:
         spec = copy.deepcopy(op["spec"])
         spec.setdefault("funcs", [])
-        env = world.make_env(spec)
+        before = (self.graves.get("reused_env", 0), self.graves.get("reused_fn", 0))
+        env = world.make_env(spec, self.graves)
+        if self.graves.get("reused_env", 0) != before[0]:
+            self.stats["probe_environment_allocated_where_a_dead_one_was"] += 1
+        if self.graves.get("reused_fn", 0) != before[1]:
+            self.stats["probe_function_allocated_where_a_dead_one_was"] += 1
         fns = {name: f for name, f in env.function_extensions.items() if hasattr(f, "fault_at")}
         self.envs[op["id"]] = {"spec": spec, "obj": env, "fns": fns}
         self.stats["envs_created"] += 1
         if spec.get("attrs") or spec.get("setup"):
             self.stats["env_subclasses_created"] += 1
+        return "ok"
+
+    def op_forget_env(self, op: Dict[str, Any]) -> Any:
+        """The caller lets go of an environment and of everything obtained from it (compiled
+        queries, live iterators); a collection follows, so later objects may well be allocated
+        where these were."""
+        eid = op["env"]
+        if eid == "module" or eid not in self.envs:
+            return "skip"
+        e = self.envs[eid]
+        self.graves["env"].add(id(e["obj"]))
+        self.graves["fn"].update(id(f) for f in e["obj"].function_extensions.values() if hasattr(f, "fault_at"))
+        del e
+        for cid in [k for k, c in self.compiled.items() if c["env"] == eid]:
+            del self.compiled[cid]
+        for rec in self.iters.values():
+            if rec.get("env_id") == eid:
+                rec["it"] = None
+                if rec["state"] == "live":
+                    rec["state"] = "dropped"
+        self.seen_calls = [c for c in self.seen_calls if c["env_id"] != eid]
+        del self.envs[eid]
+        gc.collect()
+        self.stats["envs_forgotten_and_collected"] += 1
         return "ok"
 
     def op_register(self, op: Dict[str, Any]) -> Any:
@@ -266,7 +335,7 @@ class Machine:
         name = op["name"]
         if name in e["obj"].function_extensions:
             return "skip"  # additive registration only (late binding is by design)
-        f = world.make_function(name, op["fspec"], e["obj"])
+        f = world.make_function(name, op["fspec"], e["obj"], self.graves)
         e["obj"].function_extensions[name] = f
         e["spec"]["funcs"].append([name, op["fspec"]])
         e["fns"][name] = f
@@ -388,7 +457,7 @@ class Machine:
             form = "module" if envspec.get("module") else "env"
             thunk = (lambda: jp.finditer(q, d["obj"])) if form == "module" else (lambda: e["obj"].finditer(q, d["obj"]))
         gspec = {"env": self._env_golden_spec(envspec), "q": q, "doc": d["spec"], "entry": "finditer", "form": form}
-        rec = {"spec": gspec, "nondet": self._is_nondet(envspec), "got": [], "state": "live", "doc": op["doc"], "q": q, "it": None, "faulted": False, "threads": set()}
+        rec = {"spec": gspec, "nondet": self._is_nondet(envspec), "got": [], "state": "live", "doc": op["doc"], "q": q, "it": None, "faulted": False, "threads": set(), "env_id": c["env"] if "c" in op else op["env"]}
         try:
             with sched.in_library():
                 rec["it"] = iter(thunk())
